@@ -34,6 +34,8 @@ func c15StopSets() []c15Stops {
 		c15Stops{{Offset: 0, Color: c(0, 0, 0, 0)}, {Offset: 0.125, Color: c(9, 9, 9, 9)}, {Offset: 0.25, Color: c(0, 0, 0, 0)}, {Offset: 0.375, Color: c(0xff, 0, 0, 0xff)},
 			{Offset: 0.5, Color: c(0, 0xff, 0, 0xff)}, {Offset: 0.625, Color: c(0, 0, 0xff, 0xff)}, {Offset: 0.75, Color: c(0x7f, 0x7f, 0x7f, 0x7f)}, {Offset: 1, Color: c(1, 1, 1, 1)}},
 	)
+	// two stops 2^-18 apart between ordinary ones (a hard edge), in the middle of the list
+	sets = append(sets, c15Stops{{Offset: 0.25, Color: c(0xff, 0, 0, 0xff)}, {Offset: 0.5, Color: c(0, 0xff, 0, 0xff)}, {Offset: 0.5 + 1.0/(1<<18), Color: c(0, 0, 0xff, 0xff)}, {Offset: 0.75, Color: c(0x20, 0x20, 0x20, 0x20)}})
 	var big c15Stops
 	for i := 0; i < 58; i++ {
 		a := uint8(255 - 3*i)
@@ -54,7 +56,7 @@ func c15StopSets() []c15Stops {
 	return sets
 }
 
-const c15QuickSets = 8
+const c15QuickSets = 9
 
 type c15Map struct {
 	vb   ivg.ViewBox
@@ -80,6 +82,7 @@ var c15ExactMats = [][6]float32{
 	{0.015625, 0, 0, 0, 0.015625, 0},
 	{-0.25, 0.25, 3.5, 0.25, 0.25, -3.5},
 	{2, 0, -64, 0, 2, -64},
+	{1 << 62 * 4, 0, 0, 0, 1 << 62 * 4, 0}, // 2^64: raw offsets far beyond any integer type
 }
 
 var c15GenMats = [][6]float32{
@@ -146,7 +149,7 @@ func init() {
 	mc.Register(&mc.Check{
 		ID:    "C15",
 		Level: "exploration",
-		Rule: "engine P over (stops x spread x shape x matrix x map x pixel): 8 stop lists (2,2,3,4,3,2,8,58 stops; first>0, last<1, transparent, equal neighbours, stops 2^-10 apart) x 4 spreads x 2 shapes; exact family: 10 dyadic matrices x 3 power-of-two viewBox/rectangle maps x pixel sweeps landing exactly on integers, stop offsets, midpoints and +-1000 (compared at the discontinuities, exact equality at stops); " +
+		Rule: "engine P over (stops x spread x shape x matrix x map x pixel): 9 stop lists (2,2,3,4,3,2,8,4,58 stops; first>0, last<1, transparent, equal neighbours, stops 2^-10 apart) x 4 spreads x 2 shapes; exact family: 11 dyadic matrices (one with entries 2^64) x 3 power-of-two viewBox/rectangle maps x pixel sweeps landing exactly on integers, stop offsets, midpoints and +-1000 (compared at the discontinuities, exact equality at stops); " +
 			"generic family: 10 (thorough 120: + 11 rotations x 5 scales x 2 translations, sheared) matrices x 12 maps x a 33x33 (thorough 129x129) pixel lattice; thorough adds 57 generated stop lists, one per stop count 2..58 (33x33 lattice) incl. negative coordinates (pixels within 1e-9 of a discontinuity of the active spread skipped and counted). The paint is obtained as a user gets it: register writes + gradient colour + full-rectangle path on a real Renderer, src image taken from Rasterizer.Draw; At(x,y) and the GradientConfig accessors are compared with the reference; a subset is rendered with raster/vec into an RGBA64 image. " +
 			"distinct = hash of (spread-mapped region, exactness, shape); non-trivial = pixel whose raw offset lies outside [0,1] or exactly on a stop",
 		Assumptions: []string{"|At - v| <= 1 of 65535 per channel (truncation vs rounding is not the property's subject)", "accessor matrix compared within 2^-40 (exact family) / 2^-21 (generic family: the renderer's scale is a float32) relative to the magnitude of the terms"},
@@ -218,10 +221,15 @@ var c15Layouts = []c15Layout{{12, 20, 8}, {60, 3, 56}, {5, 62, 2}}
 func c15Paint2(stops c15Stops, spread, shape int, m [6]float32, mp c15Map, ras *rec.Raster, lay c15Layout) (*rec.RCall, *render.Renderer) {
 	z := new(render.Renderer)
 	ras.ResetLog()
-	// the target is configured twice: another rectangle first, the final one only after Reset
-	z.SetRasterizer(ras, image.Rect(3, 1, 3+mp.rect.Dy()+5, 1+mp.rect.Dx()+2))
-	z.Reset(mp.vb, ivg.DefaultPalette)
-	z.SetRasterizer(ras, mp.rect)
+	if lay.nbase%2 == 0 {
+		z.SetRasterizer(ras, mp.rect)
+		z.Reset(mp.vb, ivg.DefaultPalette)
+	} else {
+		// the target is configured twice: another rectangle first, the final one only after Reset
+		z.SetRasterizer(ras, image.Rect(3, 1, 3+mp.rect.Dy()+5, 1+mp.rect.Dx()+2))
+		z.Reset(mp.vb, ivg.DefaultPalette)
+		z.SetRasterizer(ras, mp.rect)
+	}
 	z.SetCSel(lay.cbase)
 	z.SetNSel(lay.nbase)
 	for i := 0; i < 6; i++ {
@@ -304,7 +312,7 @@ func c15Check(w *mc.W, cs *c15Case) {
 		rows = 1 // the bottom row is ignored for linear gradients
 	}
 	for i := 0; i < 3*rows; i++ {
-		if math.Abs(p.M[i]-want[i]) > tolM*mag[i]+1e-300 {
+		if !(math.Abs(p.M[i]-want[i]) <= tolM*mag[i]+1e-300) {
 			fail("accessors:transform", fmt.Sprintf("Transform()[%d] = %g, composition of the viewBox-to-gradient matrix with the pixel-to-viewBox map gives %g", i, p.M[i], want[i]), math.MinInt32, 0)
 			return
 		}
@@ -463,7 +471,7 @@ func c15Check(w *mc.W, cs *c15Case) {
 				wm := [3]float64{a / sx, b / sy, c + a*ox + b*oy}
 				mg := [3]float64{math.Abs(a / sx), math.Abs(b / sy), math.Abs(c) + math.Abs(a*ox) + math.Abs(b*oy)}
 				for k := 0; k < 3; k++ {
-					if math.Abs(q.M[3*r+k]-wm[k]) > tolM*mg[k]+1e-300 {
+					if !(math.Abs(q.M[3*r+k]-wm[k]) <= tolM*mg[k]+1e-300) {
 						fail(fmt.Sprintf("repaint-%d:transform", n), fmt.Sprintf("after the matrix registers changed to %v, path %d is painted with Transform()[%d] = %g, expected %g", m2, n, 3*r+k, q.M[3*r+k], wm[k]), math.MinInt32, 0)
 						return false
 					}
